@@ -15,6 +15,7 @@
 #include <booster/posix_time.h>
 #include <cppcms/thread_pool.h>
 #include <sys/socket.h>
+#include <sys/resource.h>
 #include <atomic>
 #include <memory>
 #ifndef C17_TSAN_PASS
@@ -117,6 +118,27 @@ static void timers_case(int reactor,const char *rname,int N,int shift,int order)
 }
 static void timers_pass(int part,int parts){ int reactors[]={io::reactor::use_epoll,io::reactor::use_poll,io::reactor::use_select}; const char *rn[]={"epoll","poll","select"}; std::vector<int> Ns; int q[]={1,2,10,500,999,1000,1001,1500,2500}; Ns.assign(q,q+9); if(vf::thorough()){ Ns.push_back(5000); Ns.push_back(12000); Ns.push_back(20000); }
 	int k=0; for(size_t n=0;n<Ns.size();n++) for(int shift=0;shift<(vf::thorough()?16:6);shift++) for(int order=0;order<5;order++) for(int r=0;r<3;r++){ if(r&&(Ns[n]>2500||shift>1)) continue; /* the timer table is reactor independent: the other reactors get the smaller cases */ if(k++%parts!=part) continue; if(vf::deadline_reached()){ vf::C().exhaustive=false; return; } timers_case(reactors[r],rn[r],Ns[n],shift,order); } }
+
+// S7 (sequential): I/O waits whose REGISTRATION fails inside the reactor (a regular file under epoll: EPERM; a descriptor closed before the loop registers it: EBADF;
+// a descriptor >= FD_SETSIZE under select), followed by cancel_io_events on the same descriptor and by a second wait. Each handler must run exactly once (with an error
+// or a cancellation code, never twice), whatever the reactor answers.
+static void failing_registration_case(int reactor,const char *rname,int kind,int follow){ const char *kn[]={"regular file","descriptor closed before registration","descriptor >= FD_SETSIZE","valid socket (control)"}; const char *fn[]={"cancel_io_events","cancel twice","wait for writability too, then cancel","nothing"}; std::string cs="S7 failing registration reactor="+std::string(rname)+" fd="+kn[kind]+" then="+fn[follow]; vf::announce(cs); vf::eval();
+	io::io_service srv(reactor); int fd=-1,aux=-1; int sp[2]={-1,-1};
+	if(kind==0){ char tmpl[]="/tmp/vfc17XXXXXX"; fd=mkstemp(tmpl); unlink(tmpl); } else if(kind==1){ if(socketpair(AF_UNIX,SOCK_STREAM,0,sp)==0){ fd=sp[0]; aux=sp[1]; ::close(fd); } } else if(kind==2){ struct rlimit rl; getrlimit(RLIMIT_NOFILE,&rl); if(rl.rlim_cur<1200){ rl.rlim_cur=std::min<rlim_t>(rl.rlim_max,4096); setrlimit(RLIMIT_NOFILE,&rl); } if(socketpair(AF_UNIX,SOCK_STREAM,0,sp)==0){ fd=dup2(sp[0],1100); ::close(sp[0]); aux=sp[1]; } } else { if(socketpair(AF_UNIX,SOCK_STREAM,0,sp)==0){ fd=sp[0]; aux=sp[1]; } }
+	if(fd<0){ if(aux>=0) ::close(aux); vf::guard("failing_registration_cases_skipped"); return; }
+	int n1=0,n2=0; std::string c1,c2; auto code=[](error_code const &e){ return !e?std::string("ok"): e==error_code(io::aio_error::canceled,io::aio_error_cat)?std::string("canceled"):std::string("error"); };
+	// everything happens inside ONE run(): a script of steps, each followed by three empty loop iterations so that what a step caused is dispatched (reset() would drop it)
+	std::vector<std::function<void()> > script; script.push_back([&](){ srv.set_io_event(fd,io::io_service::in,[&](error_code const &e){ n1++; c1+=code(e)+","; }); });
+	if(follow==0||follow==1){ script.push_back([&](){ srv.cancel_io_events(fd); if(follow==1) srv.cancel_io_events(fd); }); }
+	else if(follow==2){ /* a second wait on the same descriptor for the OTHER event (set_io_event for the same event would, by its 'set' contract, replace the pending handler: not used) */ script.push_back([&](){ srv.set_io_event(fd,io::io_service::out,[&](error_code const &e){ n2++; c2+=code(e)+","; }); }); script.push_back([&](){ srv.cancel_io_events(fd); }); }
+	script.push_back([&](){ srv.cancel_io_events(fd); }); // final sweep: whatever is still registered is cancelled
+	size_t pc=0; int hop=0; std::function<void()> tick; tick=[&](){ if(hop>0){ hop--; srv.post(tick); return; } if(pc<script.size()){ script[pc++](); hop=3; srv.post(tick); } else srv.stop(); }; srv.post(tick); srv.run();
+	std::string fail; if(n1!=1) fail="the handler of the first wait ran "+std::to_string(n1)+" times ("+c1+")"; else if(follow==2&&n2!=1) fail="the handler of the second wait ran "+std::to_string(n2)+" times ("+c2+")";
+	if(!fail.empty()) vf::violation(std::string("io-wait:")+(n1>1||n2>1?"handler-twice":"handler-lost")+":"+rname,fail+" ["+cs+"]","\"case\":"+vf::jstr(cs));
+	if(c1.find("error")!=std::string::npos) vf::guard("io_wait_registrations_refused"); vf::guard("failing_registration_cases"); vf::C().traces++; vf::outcome("S7|"+std::string(rname)+"|"+std::to_string(kind)+"|"+std::to_string(follow)+"|"+c1+"|"+c2);
+	{ static uint64_t sc=0; if(vf::sample_tick(sc,7)) vf::sample("{\"case\":"+vf::jstr(cs)+",\"first_handler\":"+vf::jstr(c1)+",\"second_handler\":"+vf::jstr(c2)+"}",70); }
+	if(kind!=1&&fd>=0) ::close(fd); if(aux>=0) ::close(aux); }
+static void failing_registration_pass(){ int reactors[]={io::reactor::use_epoll,io::reactor::use_poll,io::reactor::use_select}; const char *rn[]={"epoll","poll","select"}; for(int r=0;r<3;r++) for(int kind=0;kind<4;kind++) for(int follow=0;follow<4;follow++) failing_registration_case(reactors[r],rn[r],kind,follow); }
 static uint64_t n_exec=0;
 static void run_scenario(const Scenario &s,int reactor,const char *rname,int bound,bool adopt){ std::string cs=s.name+" reactor="+rname; vf::announce(cs); std::shared_ptr<Book> cur; std::set<std::string> outcomes; sched::G.virtual_clock=true; sched::G.adopt_threads=adopt;
 	auto factory=[&]()->Bodies{ return s.build(cur,reactor); };
@@ -134,15 +156,15 @@ int main(int argc,char **argv){ vf::init(argc,argv,"C17","model_checking");
 	tsan_pass(); return vf::finish();
 #else
 	bool th=vf::thorough(); int bound=th?3:2; std::vector<Scenario> S=scenarios(); int reactors[]={io::reactor::use_epoll,io::reactor::use_poll,io::reactor::use_select}; const char *rn[]={"epoll","poll","select"};
-	vf::C().rule="S6 (sequential): N in {1,2,10,500,999,1000,1001,1500,2500; thorough +5000,12000,20000} simultaneously pending timers x 6 (16) shifts of the slot generator x 5 cancel/expire orders: ids pairwise distinct among pending timers, every handler exactly once with the right code. Scenarios S1 (two producers posting plain/event/io/nested handlers), S2 (timers armed with equal, past and future deadlines and cancelled from another thread, cancel racing expiry, double cancel), S3 (two descriptors becoming readable/writable, writer thread, canceller), S4 (stop racing post) x reactors {epoll, poll, select}, and S5 (thread_pool(2): five jobs, one throwing, one cancelled, stop) - every schedule with <= "+std::to_string(bound)+" preemptions ("+std::to_string(bound-1)+" for S2 and S3); scheduling points: every pthread mutex / condition operation, poll/epoll_wait/select, explicit yields around descriptor writes; virtual clock. states = distinct handler-outcome vectors, transitions = scheduling decisions, traces = executions of the real code";
+	vf::C().rule="S7 (sequential): I/O waits whose registration the reactor refuses (regular file, closed descriptor, descriptor >= FD_SETSIZE; plus a valid socket) x 3 reactors x {cancel, cancel twice, second wait then cancel, nothing}: each handler exactly once. S6 (sequential): N in {1,2,10,500,999,1000,1001,1500,2500; thorough +5000,12000,20000} simultaneously pending timers x 6 (16) shifts of the slot generator x 5 cancel/expire orders: ids pairwise distinct among pending timers, every handler exactly once with the right code. Scenarios S1 (two producers posting plain/event/io/nested handlers), S2 (timers armed with equal, past and future deadlines and cancelled from another thread, cancel racing expiry, double cancel), S3 (two descriptors becoming readable/writable, writer thread, canceller), S4 (stop racing post) x reactors {epoll, poll, select}, and S5 (thread_pool(2): five jobs, one throwing, one cancelled, stop) - every schedule with <= "+std::to_string(bound)+" preemptions ("+std::to_string(bound-1)+" for S2 and S3); scheduling points: every pthread mutex / condition operation, poll/epoll_wait/select, explicit yields around descriptor writes; virtual clock. states = distinct handler-outcome vectors, transitions = scheduling decisions, traces = executions of the real code";
 	vf::assume("a loop that sleeps until its one-hour poll timeout while handlers are pending is reported as a lost wake-up (the virtual clock would have to jump past every deadline the scenario armed)"); vf::assume("timers are armed on the millisecond grid; the virtual clock only takes values on that grid"); vf::assume("the data-race clause is decided by ThreadSanitizer on free-running executions of the same scenarios");
 	if(!vf::C().replay_file.empty()) printf("replay: the replay file names scenario, reactor and schedule (choice vector); re-running the quick tier reproduces it\n");
 	std::vector<std::pair<int,int> > jobs; for(size_t si=0;si<S.size();si++) for(int r=0;r<3;r++) jobs.push_back(std::make_pair(si,r)); jobs.push_back(std::make_pair(-1,0)); for(int k=0;k<3;k++) jobs.push_back(std::make_pair(-2,k));
-	vf::parallel(jobs.size(),16,[&](int j){ if(jobs[j].first==-2){ timers_pass(jobs[j].second,3); } else if(jobs[j].first<0){ Scenario p=pool_scenario(); run_scenario(p,0,"n/a",bound,true); } else { int sb= (jobs[j].first==1||jobs[j].first==2)? bound-1 : bound; /* S2 and S3 have many more scheduling points (time advances, five threads) */ run_scenario(S[jobs[j].first],reactors[jobs[j].second],rn[jobs[j].second],sb,false); } vf::guard("executions",n_exec); },th?1700:280);
+	vf::parallel(jobs.size(),16,[&](int j){ if(jobs[j].first==-2){ timers_pass(jobs[j].second,3); if(jobs[j].second==0) failing_registration_pass(); } else if(jobs[j].first<0){ Scenario p=pool_scenario(); run_scenario(p,0,"n/a",bound,true); } else { int sb= (jobs[j].first==1||jobs[j].first==2)? bound-1 : bound; /* S2 and S3 have many more scheduling points (time advances, five threads) */ run_scenario(S[jobs[j].first],reactors[jobs[j].second],rn[jobs[j].second],sb,false); } vf::guard("executions",n_exec); },th?1700:280);
 	{ std::string cmd=std::string("timeout -k 5 ")+(vf::thorough()?"1500 ":"400 ")+vf::verif_dir()+"/build/bin/C17.tsan --tier "+vf::C().tier+" --pass tsan --result '"+vf::scratch_dir()+"/tsan.res' 2>'"+vf::scratch_dir()+"/tsan.err'"; int st=system(cmd.c_str()); FILE *f=fopen((vf::scratch_dir()+"/tsan.res").c_str(),"rb"); bool merged=f&&vf::merge_ctx(f); if(f) fclose(f); std::string err; { std::ifstream e(vf::scratch_dir()+"/tsan.err"); std::stringstream ss; ss<<e.rdbuf(); err=ss.str(); }
 	  if(WIFEXITED(st)&&(WEXITSTATUS(st)==124||WEXITSTATUS(st)==137)){ vf::violation("free-running-pass-hang","the free-running ThreadSanitizer pass did not terminate within its time limit (livelock, deadlock or a corrupted structure): "+err.substr(0,300),"\"report\":"+vf::jstr(err.substr(0,1500))); }
 	  else if(err.find("ThreadSanitizer: data race")!=std::string::npos||(WIFEXITED(st)&&WEXITSTATUS(st)==66)){ size_t p=err.find("WARNING: ThreadSanitizer"); std::string rep= p==std::string::npos?err.substr(0,1500):err.substr(p,1500); std::string fn; size_t q=rep.find("#0 "); if(q!=std::string::npos){ size_t e2=rep.find('\n',q); fn=rep.substr(q,e2-q); } vf::violation("data-race","ThreadSanitizer reports a data race in the free-running pass: "+fn,"\"report\":"+vf::jstr(rep)); } else if(!merged||st!=0){ fprintf(stderr,"harness error: tsan pass failed (status %d): %s\n",st,err.substr(0,800).c_str()); vf::C().harness_error=true; } }
-	vf::require_guard("executions"); vf::require_guard("executions_with_virtual_time_advance"); vf::require_guard("scenarios_with_several_outcomes"); vf::require_guard("tsan_free_runs"); vf::require_guard("many_timer_cases_with_table_growth");
+	vf::require_guard("executions"); vf::require_guard("executions_with_virtual_time_advance"); vf::require_guard("scenarios_with_several_outcomes"); vf::require_guard("tsan_free_runs"); vf::require_guard("many_timer_cases_with_table_growth"); vf::require_guard("failing_registration_cases"); vf::require_guard("io_wait_registrations_refused");
 	return vf::finish();
 #endif
 }
